@@ -108,19 +108,28 @@ def check(rep: Report, ctx: Ctx) -> None:
                        fi=x.func, node=x.node,
                        detail=f"cleaning runs '{x.stmt.nf()[:120]}'")
 
+    frame_broken = {o.instance.split(":")[0] for o in rep.obligations
+                    if o.rule == "R11.2" and not o.ok}
     # ---- R11.3 ---------------------------------------------------------------
     rep.rule("R11.3", "dangling-parent selection", 3)
-    _dangling(rep, cleaners["remove_inconsistent_jobs"],
-              interps["remove_inconsistent_jobs"])
+    if "remove_inconsistent_jobs" not in frame_broken:
+        _dangling(rep, cleaners["remove_inconsistent_jobs"],
+                  interps["remove_inconsistent_jobs"])
+    else:
+        rep.minima["R11.3"] = 0   # not evaluated: R11.2 already reports it
 
     # ---- R11.4 ---------------------------------------------------------------
     rep.rule("R11.4", "window deletion = complement of 'some span starts or "
              "ends inside the window'", 4)
     lo_idx, hi_idx = time_window_bounds(ctx, rep, "R11.4")
     fi = cleaners["remove_jobs_outside_of_time_window"]
-    pred = _window_delete(rep, ctx, fi,
-                          interps["remove_jobs_outside_of_time_window"],
-                          lo_idx, hi_idx)
+    pred = None
+    if "remove_jobs_outside_of_time_window" in frame_broken:
+        rep.minima["R11.4"] = 0   # not evaluated: R11.2 already reports it
+    if "remove_jobs_outside_of_time_window" not in frame_broken:
+        pred = _window_delete(rep, ctx, fi,
+                              interps["remove_jobs_outside_of_time_window"],
+                              lo_idx, hi_idx)
     # the window handed to the predicate is get_time_window(self.time_buffer)
     gtw = ctx.func("get_time_window")
     forwards(rep, ctx, "R11.4", fi, gtw, {
@@ -205,6 +214,11 @@ def check(rep: Report, ctx: Ctx) -> None:
         rep.ob("R11.8", f"{prop_name} returns {fld} once data was seen", ok,
                fi=g, node=last if last is not None else g.node,
                detail=f"return {unparse(last.value) if last else '?'}")
+    # who may write the tracked bounds: they describe the spans handed to
+    # save_data in this process (or stay at the "unbounded" initial values
+    # when nothing was ingested) -- nothing else may move them, in particular
+    # not the contents of the store, which cleaning itself has trimmed
+    bounds_writers(rep, ctx, "R11.8")
     # save_data delegates every span to the concrete holder
     dl = [c for c in ast.walk(sd.node) if isinstance(c, ast.Call)
           and call_name(c) == "_save_data"]
@@ -224,6 +238,37 @@ def check(rep: Report, ctx: Ctx) -> None:
              "normalised away)", 1)
     from .c10 import link_root_agreement
     link_root_agreement(rep, ctx, "R11.9")
+
+
+def bounds_writers(rep: Report, ctx: Ctx, rule: str) -> None:
+    """(shared with C15)  Only save_data (and the constructor) assign the
+    tracked _min_timestamp / _max_timestamp."""
+    sd = ctx.func("DataHolder.save_data")
+    offenders = []
+    for fi in ctx.index.all_functions():
+        if fi.qualname == sd.qualname or fi.name == "__init__":
+            continue
+        for n in ast.walk(fi.node):
+            tg = []
+            if isinstance(n, ast.Assign):
+                tg = n.targets
+            elif isinstance(n, (ast.AugAssign, ast.AnnAssign)):
+                tg = [n.target]
+            for t in tg:
+                for x in ast.walk(t):
+                    if isinstance(x, ast.Attribute) and x.attr in (
+                            "_min_timestamp", "_max_timestamp"):
+                        offenders.append((fi, n, x.attr))
+    rep.ob(rule, "only save_data moves the tracked time bounds",
+           not offenders, fi=offenders[0][0] if offenders else sd,
+           node=offenders[0][1] if offenders else sd.node,
+           detail=("; ".join(f"{f.short} assigns {a}" for f, _, a in
+                             offenders)
+                   + " -- bounds recomputed from the (already trimmed) store "
+                   "shrink the window on every re-run without ingestion: "
+                   "each run deletes more traces and changes its answer")
+           if offenders else
+           "assigned in the constructor and in save_data only")
 
 
 def _generic(nf: str) -> str:
